@@ -629,7 +629,7 @@ package quickfix
 
 // common shape of a handler's result: at most one application message accepted, and then the expected number moved on
 // by exactly one; the expected number never moves backwards unless the store was reset
-//@ func (state inSession) handleTestRequest [C01,C06,C20]
+//@ func (state inSession) handleTestRequest [C01,C04,C06,C20]
 //@   requires @sess sessfull(session)
 //@   requires @bound session.store.#T < MaxInt64
 //@   requires @msg msgok(msg)
